@@ -740,7 +740,7 @@ def stepLd (s : State) (t : Tid) (o : Ord) (loc : Loc) (obs : Nat) : Except Stri
     if !hasShare c.l old then .error "release loop of mu_wait on a word without the caller's share"
     else
       let sub := subWord c.l old
-      let add0 := !sub.wlock && sub.readers == 0 && c.hadW
+      let add0 := !sub.wlock && sub.readers == 0 && c.hadW && !old.desig
       ldWord s o loc obs (setPc s t (.mwRelCas c old add0))
   | .mwWaitLd c =>
     match c.w with
@@ -951,7 +951,7 @@ def stepCas (s : State) (t : Tid) (o : Ord) (loc : Loc) (exp new obs : Nat) (ok 
     | none => .error "no waiter record"
     | some k =>
       let nw := mwEnqWord c.cond.isSome old
-      let c' := { c with hadW := old.waiting && !old.desig, first := false }
+      let c' := { c with hadW := old.waiting, first := false }
       let s1 := { s with word := nw, sp := some t }
       casWord s o .acq loc exp new obs ok old nw
         (setPc (if c.first then enqLast s1 k else enqFirst s1 k) t (.mwRelLd c')) (setPc s t (.mwEnqLd c))
